@@ -42,7 +42,7 @@ func (h *H) collStats() (*moss.CollectionStats, error) {
 // settle waits until every ExecuteBatch call is accounted for (returned or
 // blocked) and the counts are stable.
 func (sr *syncRun) settle(coll moss.Collection) (blocked int, err error) {
-	deadline := time.Now().Add(5 * time.Second)
+	deadline := time.Now().Add(40 * time.Second)
 	stable, last := 0, -1
 	for {
 		st, _ := coll.Stats()
@@ -136,7 +136,7 @@ func stallScenario(emit func(sx), id int, cs uint64) {
 	select {
 	case <-done:
 		emit(L("stall", "ok"))
-	case <-time.After(3 * time.Second):
+	case <-time.After(30 * time.Second):
 		emit(L("stall", "hung"))
 		emit(L("end"))
 		return // the collection is wedged; leave it
@@ -145,7 +145,7 @@ func stallScenario(emit func(sx), id int, cs uint64) {
 	go func() { cl <- h.closeAll() }()
 	select {
 	case <-cl:
-	case <-time.After(8 * time.Second):
+	case <-time.After(40 * time.Second):
 		emit(L("stall", "close-hung"))
 	}
 	emit(L("end"))
@@ -273,7 +273,7 @@ func famSync(w *bufio.Writer, seed uint64, n int) error {
 				go func() { done <- h.closeAll() }()
 				select {
 				case <-done:
-				case <-time.After(8 * time.Second):
+				case <-time.After(40 * time.Second):
 					emit(L("error", "\"Close did not return\""))
 					ok = false
 				}
@@ -295,7 +295,7 @@ func famSync(w *bufio.Writer, seed uint64, n int) error {
 			go func() { done <- h.closeAll() }()
 			select {
 			case <-done:
-			case <-time.After(8 * time.Second):
+			case <-time.After(40 * time.Second):
 				emit(L("error", "\"final Close did not return\""))
 			}
 			sr.closedNow = true
